@@ -24,6 +24,10 @@ def scratch_copy():
 
 
 def apply_edit(root, m):
+    if 'edits' in m:
+        for e in m['edits']:
+            apply_edit(root, dict(e, name=m['name']))
+        return
     p = os.path.join(root, m['file'])
     s = open(p).read()
     if s.count(m['old']) != 1:
